@@ -17,11 +17,22 @@ RESEGS = ["data_sets", "plots", "a_first"]      # packages whose stubs hold re-e
 
 def skeleton(stubs: Stubs) -> dict:
     """Per Python module: the stub with names replaced by recovered Python names; documentation and annotations dropped."""
-    def decl(d):
-        return {"k": d.kind, "n": d.pyname, "static": d.static, "tp": [[t["name"], t["variance"], type_term(t["bound"])] for t in d.typeparams],
-                "params": None if d.params is None else [[p["pyname"], type_term(p["type"]), p["default"]] for p in d.params],
-                "res": [type_term(r["type"]) for r in d.results], "supers": [type_term(s) for s in d.supers],
-                "type": type_term(d.type) if d.kind == "attr" else None, "todos": sorted(d.todos), "members": [decl(m) for m in d.members]}
+    def rename(t, tps):
+        """Type parameters have no Python-name annotation: they are compared by the position of their declaration."""
+        if t["k"] == "named" and t["n"] in tps:
+            return dict(t, n=tps[t["n"]], a=[rename(x, tps) for x in t["a"]])
+        return dict(t, a=[rename(x, tps) for x in t["a"]])
+
+    def decl(d, outer=None):
+        tps = dict(outer or {})
+        depth = len({v.split(".")[0] for v in tps.values()})
+        for j, t in enumerate(d.typeparams):
+            tps[t["name"]] = f"$tp{depth}.{j}"
+        ty = lambda x: rename(type_term(x), tps)  # noqa: E731
+        return {"k": d.kind, "n": d.pyname, "static": d.static, "tp": [[tps[t["name"]], t["variance"], ty(t["bound"])] for t in d.typeparams],
+                "params": None if d.params is None else [[p["pyname"], ty(p["type"]), p["default"]] for p in d.params],
+                "res": [ty(r["type"]) for r in d.results], "supers": [ty(s) for s in d.supers],
+                "type": ty(d.type) if d.kind == "attr" else None, "todos": sorted(d.todos), "members": [decl(m, tps) for m in d.members]}
     out = {}
     for rel, f in stubs.files.items():
         key = f.pymodule or f.package
@@ -80,6 +91,10 @@ def main(v: Verdict) -> None:
     files["minherit.py"] = "\n\n".join(inh) or "X = 1\n"
     for seg in MODSEGS:
         files[f"{seg}.py"] = "def inmod() -> int:\n    ...\n"
+    # type variables with convertible names: of the class, of the constructor only, of a method
+    files["mgeneric.py"] = ("from typing import Generic, TypeVar\n\nT_in = TypeVar(\"T_in\")\nU_out = TypeVar(\"U_out\", covariant=True)\nv_x = TypeVar(\"v_x\")\n\n\n"
+                            "class Box(Generic[T_in, U_out]):\n    def __init__(self, item: T_in):\n        self.item = item\n\n    def get(self) -> T_in:\n        ...\n\n"
+                            "    def conv(self, f: v_x) -> U_out:\n        ...\n\n\nclass CtorOnly:\n    def __init__(self, x: v_x):\n        self.x = x\n\n\ndef free_fn(a: T_in) -> T_in:\n    ...\n")
     # packages that receive re-exported declarations: one whose path changes under conversion, handled before one whose path does not
     files["core/__init__.py"] = ""
     files["core/_shared.py"] = "def re_fn() -> int:\n    ...\n\n\nclass ReCls:\n    pass\n\n\nclass ReOther:\n    pass\n"
